@@ -297,7 +297,7 @@ func c01StaticCheck(c *Ctx, cases []c01StaticCase, stream string, reported map[s
 				Broken: "C01.static"})
 			continue
 		}
-		r.hist("static:" + stream + ":plain")
+		r.hist("static:" + stream + ":covered by the static model (plain or statically sized map calls of stages)")
 		if rep.frag {
 			r.hist("static:" + stream + ":inside-proved-fragment")
 		} else {
